@@ -2788,6 +2788,15 @@ class Array:
         # instead of figuring out permutations in self, apply the *reversed* permutations ot other
         for ax, perm in permutations:
             other = other.permute(inverse_permutation(perm), ax)
+            part_leg = self_part.legs[ax]
+            if other.legs[ax].block_number != part_leg.block_number and np.array_equal(
+                other.legs[ax].to_qflat() * other.legs[ax].qconj, part_leg.to_qflat() * part_leg.qconj
+            ):
+                # `permute` bunched the leg: split the blocks of `other` again as in `self_part`
+                split = Array(other.legs[:ax] + [part_leg] + other.legs[ax + 1 :], other.dtype, other.qtotal)
+                for block, slices, _, _ in other:  # use __iter__
+                    split[slices] = block  # use __setitem__ (with slices only: no permutations)
+                other = split
         # now test compatibility of self_part with `other`
         if self_part.rank != other.rank:
             raise IndexError('wrong number of indices')
